@@ -109,6 +109,18 @@ Proof.
   destruct r; apply nulfree_app; split; trivial; now apply nulfree_repN.
 Qed.
 
+Lemma nulfree_with_word l idx w sep : nulfree l -> nulfree w -> nulfree sep -> nulfree (l0_with_word l idx w sep).
+Proof.
+  intros F Fw Fs. unfold l0_with_word.
+  assert (A2 : forall x y, nulfree x -> nulfree y -> nulfree (x ++ y)) by (intros; apply nulfree_app; now split).
+  destruct (is_nil w); [exact F|]. destruct (is_nil sep); [now apply nulfree_l0_insert|].
+  destruct (lenN l <=? idx).
+  { destruct (is_nil l || ends_with l sep || starts_with w sep); auto. }
+  destruct (idx =? 0).
+  { destruct (is_nil l || starts_with l sep || ends_with w sep); auto. }
+  pose proof (nulfree_takeN idx l F) as Fa. pose proof (nulfree_dropN idx l F) as Fb.
+  cbn zeta. repeat match goal with |- context [if ?c then _ else _] => destruct c end; auto 10.
+Qed.
 Lemma nulfree_clit l c : nulfree l -> carg_ok c -> nulfree (clit_of l c).
 Proof. intros H C. destruct c; cbn [clit_of]; [constructor|apply C|now apply nulfree_dropN]. Qed.
 
@@ -185,6 +197,7 @@ Proof.
   - inversion H; subst; clear H; cbn [out0_nulfree]. unfold l0_without_prefix_nc. destruct (lit_of l a); [exact F|now apply nulfree_strip_prefix_nc].
   - inversion H; subst; clear H; cbn [out0_nulfree]. exact (nulfree_strip_suffix_nc (S (length l)) l [ch] max F).
   - inversion H; subst; clear H; cbn [out0_nulfree]. now apply nulfree_strip_ch_prefix_nc.
+  - inversion H; subst; clear H; cbn [out0_nulfree]. destruct A as [Aa As]. apply nulfree_with_word; trivial. now apply lit_nulfree.
 Qed.
 
 (* the state after any level-0 step is NUL-free again *)
